@@ -86,12 +86,25 @@ type hkdfModel struct {
 	c      int    // bytes consumed so far
 	hLen   int
 	wit    map[string]any
-	trace  []string
+	trace  [][3]int // (n, k, err != nil) of the most recent reads
+	buf    []byte
 	failed bool
 }
 
+func (x *hkdfModel) traceString() string {
+	var sb strings.Builder
+	for _, t := range x.trace {
+		e := "nil"
+		if t[2] != 0 {
+			e = "err"
+		}
+		fmt.Fprintf(&sb, "%d→%d,%s ", t[0], t[1], e)
+	}
+	return sb.String()
+}
+
 func (x *hkdfModel) viol(key string, extra map[string]any) {
-	w := map[string]any{"reader": x.name, "reads_so_far(n→k,err)": strings.Join(x.trace, " "), "consumed_before": x.c}
+	w := map[string]any{"reader": x.name, "last_reads(n→k,err)": x.traceString(), "consumed_before": x.c}
 	for k, v := range x.wit {
 		w[k] = v
 	}
@@ -112,18 +125,24 @@ func (x *hkdfModel) read(n int, nilBuf bool) bool {
 	limit := len(x.ref)
 	var p []byte
 	if !(n == 0 && nilBuf) {
-		p = bytes.Repeat([]byte{0xA5}, n)
+		if cap(x.buf) < n {
+			x.buf = make([]byte, n)
+		}
+		p = x.buf[:n]
+		for j := range p {
+			p[j] = 0xA5
+		}
 	}
 	k, err := x.r.Read(p)
 	m.Eval()
-	es := "nil"
+	ei := 0
 	if err != nil {
-		es = "err"
+		ei = 1
 	}
-	x.trace = append(x.trace, fmt.Sprintf("%d→%d,%s", n, k, es))
-	if len(x.trace) > 40 {
-		x.trace = append([]string{"…"}, x.trace[len(x.trace)-30:]...)
+	if len(x.trace) >= 40 {
+		x.trace = append(x.trace[:0], x.trace[10:]...)
 	}
+	x.trace = append(x.trace, [3]int{n, k, ei})
 	if k < 0 || k > n {
 		x.viol("hkdf-read-count-out-of-range", map[string]any{"n": n, "k": k})
 		return false
